@@ -8,7 +8,7 @@ from __future__ import annotations
 
 import numpy as np
 
-VIAS = ["ctor", "ctor", "ctor", "swap_warm", "swap_fresh", "swap2", "from_labels", "queried_before",
+VIAS = ["ctor", "ctor", "ctor", "swap_warm", "swap_fresh", "swap2", "from_labels", "queried_before", "queried_before",
         "sample_replacement", "sample_smoothing", "sample_single_pass", "sample_swap"]
 FLIP = {"pos": "neg", "neg": "pos"}
 _THR = ["tpr", "fnr", "tnr", "fpr", "topr", "tonr"]
@@ -20,7 +20,10 @@ def _warm(obj, seed):
     from score_analysis import BootstrapConfig
 
     r = _np.array([0.0, 0.31, 0.5, 1.0])
-    for m in _THR:
+    # which queries come first, and which are left out, is part of the history: drawn per case
+    rs = _np.random.default_rng(seed)
+    order = [_THR[i] for i in rs.permutation(len(_THR))][: int(rs.integers(1, len(_THR) + 1))]
+    for m in order:
         try:
             getattr(obj, "threshold_at_" + m)(r)
         except ValueError:
